@@ -14,6 +14,8 @@ GROUPS = [
     Group(name="C03/write_srec.any_entry_point", unity="C03/u_srec.cpp", entry="h_write_srec", defines=["ANY_ENTRY"],
           functions=[("write_srec", "fileio/write_srec.cpp", "harness+loop-contract")],
           loops="C03/srec.loops.json", expected_loops=2, checks=CH, timeout=600),
+    Group(name="C03/write_wdc", unity="C03/u_wdc.cpp", entry="h_write_wdc", functions=[("write_wdc", "fileio/write_wdc.cpp", "harness+loop-contract"), ("write_int24", "fileio/write_wdc.cpp", "real callee")],
+          loops="C03/wdc.loops.json", expected_loops=1, checks=CH[:2], timeout=900, extra_cbmc=["--arrays-uf-always"]),
 ]
 LEVEL = "proof"
 TRUSTED = ["fprintf/fputs/putc replaced by contracts that accept exactly the writer's format strings and feed a ghost decoder written from the file-format specification; glibc prints %02X of a value < 256 as two hex digits",
